@@ -40,6 +40,7 @@ def combos(tier: str) -> list[dict]:
                         if q and shape_name == 'multi' and (typ == 'RJ' or storage != 'local' or overwrite):
                             continue
                         out.append({'type': typ, 'shape': shape, 'shape_name': shape_name, 'overwrite': overwrite, 'storage': storage, 'backend': backend})
+    out.append({'type': 'RN', 'shape': SMALL, 'shape_name': 'small', 'overwrite': False, 'storage': 'local', 'backend': 'serial'})
     return out
 
 
@@ -54,7 +55,7 @@ def enumerate_cases(tier: str) -> list[dict]:
         for k in range(0, lines, step):
             cases.append({**base, 'inject': {'kind': 'line', 'at': k, 'action': 'raise'}, 'total': lines})
         # unpicklable results fail on their own
-    for typ in ('RV', 'RJ'):
+    for typ in ('RV', 'RJ', 'RN'):      # RN: a type whose post_init normalises one of its own parameters
         for overwrite in (False, True):
             for shape_name, shape in (('unpicklable-shallow', UNP_SHALLOW), ('unpicklable-deep', UNP_DEEP)):
                 for backend in ('serial', 'fork'):
@@ -89,7 +90,7 @@ def plan(tier: str) -> list[dict]:
 def generated_case(draw):
     shape = draw(st.one_of(resultcase.shapes(max_big=150_000), st.tuples(st.integers(0, 120_000), st.integers(0, 5)).map(lambda t: ['unpicklable', t[0], t[1]])))
     kind = draw(st.sampled_from(['storage', 'line'])) if shape[0] != 'unpicklable' else 'none'
-    return {'type': draw(st.sampled_from(['RV', 'RJ'])), 'shape': shape, 'overwrite': draw(st.booleans()),
+    return {'type': draw(st.sampled_from(['RV', 'RJ', 'RN'])), 'shape': shape, 'overwrite': draw(st.booleans()),
             'storage': draw(st.sampled_from(['local', 'fsspec_local'])), 'backend': draw(st.sampled_from(['serial', 'serial', 'fork'])),
             'inject': {'kind': kind, 'at': draw(st.integers(0, 400)), 'action': 'raise'} if kind != 'none' else {'kind': 'none'}}
 
